@@ -653,16 +653,18 @@ def run(ctx):
         "value) over a generated model (1-5 priors of four families created out of path order, shared priors, constants, nested "
         "collections, assertions on the root or a component), a scripted likelihood of the instance (weighted sum; FitException / "
         "nan rules depending on the instance; float, numpy scalar or 0-d array return) and a sequence of 1-12 operations on caller "
-        "buffers (call, overwrite a buffer in place, pyswarms batch); all eight flag combinations are forced for both interfaces "
-        "before the random stream; a case is non-trivial when at least one call evaluates successfully; distinct = distinct abstract case")
+        "buffers (call, overwrite a buffer in place, pyswarms batch); a fifth of the likelihood-mode Fitness cases are constructed "
+        "with the paths of a resumed fit (sanity evaluation inside the constructor); all eight flag combinations are forced for both "
+        "interfaces before the random stream; the reproductions of the recorded findings (corpus/C04) run first; a case is non-trivial when at least one call evaluates successfully; distinct = distinct abstract case")
     ctx.trusted = [
         "Coq 8.16.1 kernel incl. vm_compute; primitive floats (PrimFloat, Uint63) are kernel primitives",
-        "harness/vcheck/pyexpr2coq.py + c04.py:traits regenerating coq/C04/Gen.v (leaf formulas and the three implementation traits) "
+        "harness/vcheck/pyexpr2coq.py + c04.py:traits regenerating coq/C04/Gen.v (leaf formulas and the four implementation traits) "
         "from /repo on every run, fail-closed",
         "correspondence harness c04.py / impl/c04_impl.py: abstraction of a composed model into (limits in id order, slots, assertions); "
         "the abstraction is cross-checked against priors_ordered_by_id / prior_count of the live model",
         "prior.log_prior_from_value is an oracle table computed on the prior objects (its values are C02/C17 matter; C04 is about "
-        "which term is added for which entry and how they are combined)",
+        "which term is added for which entry and how they are combined); the interpreter's builtin sum() of those terms is an oracle "
+        "table too (CPython 3.12 sums exact floats with Neumaier compensation and numpy scalars naively)",
         "modelled, not verified: instance construction below the slot level (C01), the timeout decorator (disabled: lh_timeout_seconds "
         "is empty), jax jit (jax not installed)",
     ]
@@ -758,7 +760,8 @@ MANIFEST = {
             "traits are regenerated from /repo by a fail-closed translator: figure of merit for all eight flag combinations x all "
             "outcomes (exact meaning over rationals), resample value and no escaping exception for limit/assertion/FitException/nan, "
             "determinism, log-prior terms paired with entries in id order, history = successfully evaluated vectors with likelihoods "
-            "in order for every operation sequence (full for the repaired traits; refuted + partial for the pinned code), plus a "
+            "in order for every operation sequence, constructor of a resumed fit (full for the repaired traits; refuted + partial for the "
+            "pinned code), plus a "
             "bit-exact vm_compute correspondence of the model with the running code on generated call sequences with buffer "
             "mutation, and a direct property oracle on every case",
     "note": "Trusted: Coq kernel + vm_compute, primitive floats, the translator, the harness abstraction of composed models "
